@@ -429,3 +429,6 @@ def replay(w):
     else:
         run_program(corpus.item_protos(w["item"]), corpus.item_name(w["item"]), res, w, each_first=w["item"].get("kind") == "extra", cmdline=w["item"].get("cmdline", "all"))
     return res.violations
+
+
+RULE += ' Extra sets include rare constructs (custom options via extend at file level and inside a message, reserved ranges and names, json_name, packed=false, import public, field number 2**29-1), maps named alike modulo underscores and case, user messages named like a synthesized map entry, packages split over files with and without typing constructs, a module beyond 64 KiB with a 70-field message.'
